@@ -266,6 +266,46 @@ def run_kcmf(case):
                                         "impl": X.toarray().real.tolist() if shape_ok else str(X.shape), "dense": D.real.tolist()}
             res["assemblies"].append({"Ndof": int(Ndof), "out": out})
             nget += 1
+            if op.get("mutate"):
+                # (a) nothing returned may alias the simulation's own state or another matrix of the same call
+                ret = [("KCMF"[si] + "." + nm, getattr(X, nm)) for si, X in enumerate((K, C, M, F)) for nm in ("data", "indices", "indptr")]
+                own = []
+                for nm in ("_Simu__K", "_Simu__C", "_Simu__M", "_Simu__F"):
+                    X = getattr(simu, nm, None)
+                    if X is not None and hasattr(X, "indptr"):
+                        own += [(nm + "." + a, getattr(X, a)) for a in ("data", "indices", "indptr")]
+                for key_, val_ in getattr(simu, "__cachedComputedValues", {}).items():
+                    if isinstance(val_, tuple):
+                        own += [("cache." + str(key_[0]), a) for a in val_ if isinstance(a, np.ndarray)]
+                alias = [(a, b) for i, (a, x) in enumerate(ret) for (b, y) in ret[i + 1:] + own if x.size and y.size and np.shares_memory(x, y)]
+                if alias and res["prop_fail"] is None:
+                    res["prop_fail"] = {"op_index": iop, "assembly_index": nget - 1, "slot": alias[0][0][0], "alias": True, "active_mesh": act, "expected_mesh": op["expect_mesh"],
+                                        "impl": "arrays of the matrices returned by Get_K_C_M_F share memory: %s" % alias[:4], "dense": "no aliasing"}
+                # (b) every in-place operation scipy allows on the RETURNED matrices; later results must not change
+                for X, how in zip((K, C, M, F), op["mutate"]):
+                    try:
+                        if how == "data":
+                            X.data[:] = 7
+                        elif how == "elim":
+                            X.data[::2] = 0
+                            X.eliminate_zeros()
+                        elif how == "indices":
+                            X.indices[:] = 0
+                        elif how == "indptr":
+                            X.indptr[:] = 0
+                        elif how == "setdiag":
+                            X.setdiag(5)
+                        elif how == "imul":
+                            X *= 3
+                        elif how == "resize":
+                            X.resize((1, 1))
+                        elif how == "sort":
+                            X.indices[:] = X.indices[::-1].copy()
+                            X.has_sorted_indices = False
+                            X.sort_indices()
+                            X.sum_duplicates()
+                    except Exception:
+                        pass        # a read-only array is a legitimate protection
         elif k == "save":
             simu.Save_Iter()
         elif k == "setiter":
@@ -282,7 +322,92 @@ def run_kcmf(case):
     return res
 
 
+def run_contrast(case):
+    """magnitudes: element values m * 2^e with exponents spread so that one assembly mixes coefficients differing by
+    1e16 and more (and tiny / huge overall scales).  Every assembled coefficient must equal the exact scatter-add
+    (python Fractions) to a RELATIVE tolerance measured against scatter_add(|X_e|) of that coefficient -- no entry may be
+    dropped, rounded to zero or compared against an absolute threshold -- and the uniformly rescaled twin (all values
+    times 2^k) must give exactly 2^k times the same matrices."""
+    from fractions import Fraction as Fr
+    simu, meshes, groups, gid_of, pts, LagrangeCondition = build(case)
+    pt = pts[0]
+    dof_n = simu.Get_dof_n(pt)
+    cplx = case["complex"]
+    res = {"id": case["id"], "assemblies": [], "prop_fail": None, "error": None, "cache": []}
+
+    def val(x):          # [m, e] or [[mr, er], [mi, ei]]
+        if cplx and isinstance(x[0], list):
+            return (Fr(x[0][0]) * Fr(2) ** x[0][1], Fr(x[1][0]) * Fr(2) ** x[1][1])
+        return (Fr(x[0]) * Fr(2) ** x[1], Fr(0))
+
+    def build_table(shift):
+        tab, exact = {}, [[], [], [], []]
+        for gid, four in case["table"]:
+            Ne, nPe = len(case["conn"][str(gid)]), case["nPe"][str(gid)]
+            n = nPe * dof_n
+            arrs = []
+            for si, xs in enumerate(four):
+                if xs is None:
+                    arrs.append(None)
+                    continue
+                vs = [val(x) for x in xs]
+                f = Fr(2) ** shift
+                a = np.array([complex(float(r * f), float(i * f)) for r, i in vs]) if cplx and any(i != 0 for _, i in vs) else np.array([float(r * f) for r, _ in vs])
+                a = a.reshape((Ne, n, n) if si < 3 else (Ne, n, 1))
+                arrs.append(relayout(a, (case.get("layouts") or {}).get(str(gid), [None] * 4)[si]))
+                exact[si].append((gid, vs, n))
+            tab[groups[gid]] = tuple(arrs)
+        return tab, exact
+    tab, exact = build_table(0)
+    simu.table = tab
+    base = simu.Assembly(pt)
+    Ndof = base[0].shape[0]
+    eps = 2.0 ** -52
+    for si, X in enumerate(base):
+        isM = si < 3
+        ref, aref, cnt = {}, {}, {}
+        for gid, vs, n in exact[si]:
+            for e, nodes in enumerate(case["conn"][str(gid)]):
+                dofs = [int(nd) * dof_n + d for nd in nodes for d in range(dof_n)]
+                for i, gi in enumerate(dofs):
+                    for j, gj in (enumerate(dofs) if isM else [(0, 0)]):
+                        r, im = vs[(e * n + i) * (n if isM else 1) + j]
+                        key = (gi, gj)
+                        o = ref.get(key, (Fr(0), Fr(0)))
+                        ref[key] = (o[0] + r, o[1] + im)
+                        aref[key] = aref.get(key, Fr(0)) + abs(r) + abs(im)
+                        cnt[key] = cnt.get(key, 0) + 1
+        D = X.toarray()
+        for (r_, c_), (er, ei) in sorted(ref.items()):
+            z = complex(D[r_, c_])
+            err = abs(Fr(z.real) - er) + abs(Fr(z.imag) - ei)
+            tol = Fr(eps) * (cnt[(r_, c_)] + 1) * aref[(r_, c_)]
+            if err > tol and res["prop_fail"] is None:
+                res["prop_fail"] = {"op_index": 0, "assembly_index": 0, "slot": "KCMF"[si], "Ndof": int(Ndof),
+                                    "impl": "entry (%d,%d) = %r, exact scatter-add %r (+ %r j); error %.3e, tolerance %.3e = %d ulp-units of scatter_add(|X_e|) = %.3e"
+                                            % (r_, c_, z, float(er), float(ei), float(err), float(tol), cnt[(r_, c_)] + 1, float(aref[(r_, c_)])),
+                                    "dense": "relative comparison per coefficient"}
+        stray = [(int(r_), int(c_)) for r_, c_ in zip(*np.nonzero(D)) if (int(r_), int(c_)) not in ref]
+        if stray and res["prop_fail"] is None:
+            res["prop_fail"] = {"op_index": 0, "assembly_index": 0, "slot": "KCMF"[si], "Ndof": int(Ndof), "impl": "nonzero entries outside the scatter pattern: %s" % stray[:4], "dense": ""}
+    # uniformly rescaled twin
+    for k in case.get("shifts", []):
+        tab2, _ = build_table(k)
+        simu.table = tab2
+        tw = simu.Assembly(pt)
+        for si, (X, Y) in enumerate(zip(base, tw)):
+            A0, A1 = X.toarray(), Y.toarray()
+            if not np.array_equal(A1, A0 * 2.0 ** k) and res["prop_fail"] is None:
+                idx = np.argwhere(A1 != A0 * 2.0 ** k)[0]
+                res["prop_fail"] = {"op_index": 0, "assembly_index": 0, "slot": "KCMF"[si], "Ndof": int(Ndof),
+                                    "impl": "all element values times 2^%d: entry %s is %r, expected exactly 2^%d * %r" % (k, idx.tolist(), A1[tuple(idx)], k, A0[tuple(idx)]),
+                                    "dense": "exact homogeneity of the assembly"}
+    return res
+
+
 def run_case(case):
+    if case.get("contrast"):
+        return run_contrast(case)
     if case.get("big"):
         return run_big(case)
     if case.get("kcmf"):
